@@ -87,8 +87,8 @@ theorem parts_nonempty_lt {P : Partition} {r : Nat} {p : Part} (h : p ∈ P.part
     exact this.1
 
 /-- Key lemma: from any unexecuted part one finds an enabled step (strong induction on its level). -/
-theorem step_of_unexecuted {P : Partition} {lvl : Nat → Nat → Nat} {round : Nat → Nat → Nat → Nat}
-    (hwf : WFwith P lvl round) (s : GState V) :
+theorem step_of_unexecuted {P : Partition} {lvl : Nat → Nat → Nat}
+    (hwf : WFexecWith P lvl) (s : GState V) :
     ∀ n r p, p ∈ P.parts r → p.pid ∉ (s.rk r).executed → lvl r p.pid = n →
       ∃ l s', Step sem P s l s' := by
   intro n
@@ -139,9 +139,9 @@ theorem step_of_unexecuted {P : Partition} {lvl : Nat → Nat → Nat} {round : 
 
 /-- **No deadlock**: in *every* state (reachable or not) of a well-formed partition that is not
     terminal, some `exec` or `deliver` step is enabled. -/
-theorem progress_lemma {P : Partition} (hwf : WF P) (s : GState V) (hn : ¬ Terminal P s) :
+theorem progress_lemma {P : Partition} (hwf : WFexec P) (s : GState V) (hn : ¬ Terminal P s) :
     ∃ l s', Step sem P s l s' := by
-  obtain ⟨lvl, round, hwf⟩ := hwf
+  obtain ⟨lvl, hwf⟩ := hwf
   have : ∃ r, r < P.length ∧ ∃ p ∈ P.parts r, p.pid ∉ (s.rk r).executed := by
     apply Classical.byContradiction
     intro hno
@@ -230,5 +230,16 @@ end Decreasing
 
 theorem checkWF_sound_lemma (P : Partition) (h : checkWF P = true) : WF P :=
   ⟨computeLvl P, computeRound P, of_decide_eq_true h⟩
+
+theorem checkWFexec_sound_lemma (P : Partition) (h : checkWFexec P = true) : WFexec P :=
+  ⟨computeLvl P, of_decide_eq_true h⟩
+
+/-- the full contract implies what the executor needs -/
+theorem wfexec_of_wf {P : Partition} (h : WF P) : WFexec P := by
+  obtain ⟨lvl, round, hwf⟩ := h
+  refine ⟨lvl, ?_⟩
+  intro r hr
+  obtain ⟨h1, h2, h3, _, h5, h6, h7, _, _, _, _, _, h13, _⟩ := hwf r hr
+  exact ⟨h1, h2, h3, h5, h6, h7, h13⟩
 
 end Pt.Dist
